@@ -210,13 +210,20 @@ func mkArEntry(p *Prog, st *State, name string, k int) Val {
 
 // runLoadDeb interprets the loader on a scripted archive; one outcome per map iteration order.
 func runLoadDeb(p *Prog, sc debScenario) ([]debOutcome, string) {
-	loader := p.Func("deb", "loadDeb")
+	loader := p.Func("deb", "Load")
+	loadAr := p.Func("deb", "LoadAr")
 	next := p.Method("deb", "Ar", "Next")
 	debT := p.Named("deb", "Deb")
-	if loader == nil || next == nil || debT == nil {
-		return nil, "deb.loadDeb / Ar.Next / Deb not found"
+	if loader == nil || loadAr == nil || next == nil || debT == nil {
+		return nil, "deb.Load / LoadAr / Ar.Next / Deb not found"
 	}
 	m := debMachine(p, sc)
+	// the archive iterator is an oracle: LoadAr yields it, Next plays the scripted members
+	m.Hooks[loadAr.String()] = func(m *Machine, st *State, call *ssa.CallCommon, args []Val) ([]Val, bool) {
+		arT := p.Named("deb", "Ar")
+		id := st.alloc(arT, zeroVal(arT))
+		return []Val{&TupleV{E: []Val{Ptr{Obj: id}, nilV{}}}}, true
+	}
 	m.Hooks[next.String()] = func(m *Machine, st *State, call *ssa.CallCommon, args []Val) ([]Val, bool) {
 		n := 0
 		for _, e := range st.Effects {
@@ -237,9 +244,8 @@ func runLoadDeb(p *Prog, sc debScenario) ([]debOutcome, string) {
 	if st.Status == stStuck {
 		return nil, st.Msg
 	}
-	arT := p.Named("deb", "Ar")
-	arID := st.alloc(arT, zeroVal(arT))
-	st.push(loader, []Val{Ptr{Obj: arID}}, nil)
+	inID := st.alloc(types.Typ[types.Int], OpaqueV{"the-archive-file"})
+	st.push(loader, []Val{IfaceV{T: types.NewPointer(types.Typ[types.Int]), V: Ptr{Obj: inID}}, "pool/p_1_amd64.deb"}, nil)
 	var outs []debOutcome
 	res := m.Run(st)
 	for _, o := range res {
